@@ -43,7 +43,9 @@ func NewDynamicMembership(bus EventBus.Bus) Membership {
 		bus:      bus,
 	}
 
-	err := bus.SubscribeAsync(helpers.MembershipChangedBusEventName, dm.membershipChangedListener, true)
+	// synchronous: the new information must be in place before the stream (an asynchronous
+	// subscriber of the same event) reopens, dynamic membership has no rebalance delay
+	err := bus.Subscribe(helpers.MembershipChangedBusEventName, dm.membershipChangedListener)
 	if err != nil {
 		logger.Log.Error("error while subscribe membership changed event, err: %v", err)
 		panic(err)
